@@ -37,7 +37,7 @@ impl Property for C13 {
             real: &["src/entry.rs (EntryStorage, swap_any, TypeId checks, into_inner)", "src/cache.rs / src/local_cache.rs (take, remove, clear, drop)", "src/anycache.rs (load_entry, reload_untyped, get_or_insert)"],
             stub: &["Source (in-memory), notifications sent by the harness", "locks / channels / scheduler (detsim)"],
             assumptions: &["the drop ledger detects double drops, early drops (a value dropped while the model says it is stored or under a guard) and leaks without relying on undefined behaviour manifesting; insertion races with ledger are C01's scenario; allocation-level accounting (layouts, raw leaks) of the lock-free buffer type is C16's"],
-            runs: (12_000, 600_000),
+            runs: (36_000, 1_200_000),
         }
     }
     fn generate(&self, g: &mut SplitMix, k: &mut SplitMix, _tier: Tier) -> (Knobs, Value) {
